@@ -1,6 +1,7 @@
 import PestModel.Model.Grammar
 import PestModel.Model.Lower
 import PestModel.Model.Ref
+import PestModel.Model.RefTrace
 import PestModel.Model.PStateDriver
 /-! Driver modes for the grammar layer:
 `O <extras> <pass> <rules>`                      → rules after the pass
@@ -274,6 +275,23 @@ def runLine (line : String) : String :=
             showRef names (Ref.meaning rules extras noUni 100000 rule input) !=
               showRef names (Ref.meaning rules' extras noUni 100000 rule input)
           if diffs.isEmpty then "same" else "diff " ++ " ".intercalate (diffs.map toString)
+      | _, _ => "bad-op"
+    | _ => "bad-op"
+  | "S" :: ex :: rest =>
+    -- C08: the failure report specified on the call tree of the reference semantics
+    match sexpParse rest with
+    | some (.list rs :: .atom rule :: ins) =>
+      match rs.mapM ruleOf, ins.mapM (fun (x : SExp) => match x with | .atom h => strOf h | _ => none) with
+      | some rules, some inputs =>
+        let names := rules.map (·.name)
+        " | ".intercalate (inputs.map fun input =>
+          match RefTrace.traceMeaning rules (ex = "1") noUni 100000 rule input with
+          | (.ok _, _) => "ok"
+          | (.stuck, _) => "stuck"
+          | (.fuel, _) => "fuel"
+          | (.fail, calls) =>
+            let (p, pos, neg) := RefTrace.specReport calls
+            s!"err {p} [{",".intercalate (sortNames (pos.map (ruleName names)))}] [{",".intercalate (sortNames (neg.map (ruleName names)))}]")
       | _, _ => "bad-op"
     | _ => "bad-op"
   | "D" :: ex :: rest =>
